@@ -656,6 +656,21 @@ def check_memo_keys(ctx, rep, rule='C11.M', only=None):
                         cache = self_attr(t.left)
                         guard_names = set()
                         stores = [st for st in node.body if isinstance(st, ast.Assign) and any(self_attr(tg) == cache for tg in st.targets)]
+                    elif isinstance(t, ast.BoolOp) and isinstance(t.op, ast.Or) and isinstance(t.values[0], ast.Compare) and len(t.values[0].ops) == 1 \
+                            and isinstance(t.values[0].ops[0], ast.Is) and self_attr(t.values[0].left) and isinstance(t.values[0].comparators[0], ast.Constant) \
+                            and t.values[0].comparators[0].value is None:
+                        # `if self.C is None or <other tests>`: an argument is part of the key only if a test compares its VALUE (not its shape, dtype or length)
+                        cache = self_attr(t.values[0].left)
+                        guard_names = set()
+                        for other in t.values[1:]:
+                            for x in ast.walk(other):
+                                if isinstance(x, ast.Name):
+                                    par_ = getattr(x, '_parent', None)
+                                    meta = isinstance(par_, ast.Attribute) and par_.attr in ('shape', 'dtype', 'device', 'ndim', 'dim', 'size', 'numel') \
+                                        or (isinstance(par_, ast.Call) and isinstance(par_.func, ast.Name) and par_.func.id in ('len', 'type', 'id'))
+                                    if not meta:
+                                        guard_names.add(x.id)
+                        stores = [st for st in node.body if isinstance(st, ast.Assign) and any(self_attr(tg) == cache for tg in st.targets)]
                     else:
                         continue
                     for st in stores:
@@ -1400,12 +1415,12 @@ def call_argument_data_uses(fn: ast.FunctionDef):
     return tainted, uses
 
 
-def check_call_arguments(ctx, rep, rule='C11.K'):
+def check_call_arguments(ctx, rep, rule='C11.K', module_prefix=None):
     """CallableModel.__call__ serves the last value until a parameter or sub-model changes; it does not look at the call's arguments.  A model whose `_call` computes with
     an argument of the call (the Hamiltonian's momentum) must therefore not inherit that cache: a second call with another argument returns the value of the first."""
     n = 0
     for cls in sorted(ctx.classes.subclasses('torchtree.core.model.CallableModel'), key=lambda c: c.qualname):
-        if cls.is_abstract():
+        if cls.is_abstract() or (module_prefix is not None and not cls.module.name.startswith(module_prefix)):
             continue
         rc, rcall = cls.resolve('_call'), cls.resolve('__call__')
         if not rc or not rcall:
@@ -1421,6 +1436,6 @@ def check_call_arguments(ctx, rep, rule='C11.K'):
                   f"{cls.name}._call computes with {sorted(tainted)} taken from the arguments of the call, but {cls.name} is called through CallableModel.__call__, which returns the "
                   f"cached value of the previous call as long as no parameter changed: a second evaluation with a different argument returns the value of the first")
     rep.analysed[f'callable_models_reading_call_arguments[{rule}]'] = n
-    if n < 5:
+    if n < (5 if module_prefix is None else 1):
         rep.incomplete(rule, '*', '', f"only {n} callable models read their call arguments (expected the variational objectives and the Hamiltonian)")
     return n
